@@ -34,7 +34,7 @@ RULE = ('source streams (valid images, zeros, random, crafted parser-breaking co
         'boundary fault (inspector x chunk index x exception type) exhaustively, multiple faults sampled, line-level '
         'failpoints inside the inspectors\' own code (sys.monitoring), natural parser faults. non-trivial = plan with '
         'at least one fault or an expected format; distinct by (stream, schedule, source kind, expected, allowed, plan)')
-REQUIRED_CLAUSES = ['T1-conservation', 'T2-never-fed-after-raise', 'T3-exactly-once-in-order', 'T4-isolation',
+REQUIRED_CLAUSES = ['empty-chunk-midstream', 'T1-conservation', 'T2-never-fed-after-raise', 'T3-exactly-once-in-order', 'T4-isolation',
                     'T5-own-exception-propagates', 'T5-mismatch-abort', 'T5-no-read-beyond-abort', 'line-failpoint-fired',
                     'natural-fault-observed']
 ASSUMPTIONS = ['only Exception subclasses are injected (the wrapper does not promise to stop BaseException)',
@@ -126,6 +126,8 @@ def run_recorded(case):
     log = []
     produced = []
     chunks = [data[a:b] for a, b in sl.chunks_of(len(data), cuts)]
+    for pos in sorted(case.get('empties') or [], reverse=True):
+        chunks.insert(min(pos, len(chunks)), b'')          # an empty chunk in the middle of the stream
     if case['source'] == 'iter':
         def gen():
             for c in chunks:
@@ -200,7 +202,7 @@ def run_recorded(case):
                 k += 1
         else:
             k = 0
-            sizes = [b - a for a, b in sl.chunks_of(len(data), cuts)] + [1 << 16]
+            sizes = [len(c) for c in chunks] + [1 << 16]           # a size of 0 is a read(0) in mid-stream
             for s in sizes:
                 c = w.read(s)
                 log.append(('ret', k, c))
@@ -317,10 +319,12 @@ def evaluate(ctx, case):
     plan = case.get('plan') or {}
     key = (repr(case.get('spec') or case.get('data')), tuple(case['cuts']), case['source'], case.get('expected'),
            tuple(case.get('allowed') or ()), tuple(sorted((k, tuple(v)) for k, v in plan.items())), case.get('line_fault'),
-           case.get('line_target'))
+           case.get('line_target'), tuple(case.get('empties') or ()))
     ctx.case(key, nontrivial=bool(plan) or bool(case.get('expected')) or bool(case.get('line_fault')))
     for rule, n in ev.items():
         ctx.clause(rule, n)
+    if case.get('empties'):
+        ctx.clause('empty-chunk-midstream')
     if case.get('line_fault'):
         if rec['fired']:
             ctx.clause('line-failpoint-fired')
@@ -364,6 +368,7 @@ def streams():
             {'spec': {'gen': 'vhdx', 'params': {'meta_off': 256 * 1024, 'region_count': 2048, 'tail': 100}}},
             {'spec': {'gen': 'vhdx', 'params': {'meta_off': 256 * 1024, 'meta_sig': 'metadatx', 'tail': 100}}},
             {'spec': {'gen': 'vhdx', 'params': {'meta_off': 256 * 1024, 'tail': 100}}},
+            {'spec': {'gen': 'raw', 'params': {'kind': 'random', 'total': 2 * 1024 * 1024 + 4097, 'seed': 6}}},   # chunks > 1 MiB
         ]
     return STREAMS
 
@@ -417,8 +422,10 @@ def run(ctx):
         for expected in expected_pool:
             for rep in range(ctx.pick(2, 8)):
                 allowed = None if rng.random() < 0.7 else sorted(set(rng.sample(NAMES, rng.randrange(1, 6)) + ([expected] if expected in NAMES and rng.random() < 0.7 else [])))
-                emit(dict(s, cuts=cuts_for(rng, n), source=rng.choice(['file', 'iter']), expected=expected, allowed=allowed,
-                          plan={}), 'no-injection')
+                cuts = cuts_for(rng, n)
+                empties = sorted(rng.sample(range(len(cuts) + 2), rng.randrange(1, 3))) if rng.random() < 0.35 else []
+                emit(dict(s, cuts=cuts, source=rng.choice(['file', 'iter']), expected=expected, allowed=allowed,
+                          plan={}, empties=empties), 'no-injection')
     # ---- multiple faults, sampled
     for i in range(ctx.pick(8000, 200000)):
         s = rng.choice(small if rng.random() < 0.9 else streams())
@@ -428,8 +435,9 @@ def run(ctx):
         for _ in range(rng.choice([2, 2, 3, 4, 10])):
             plan[rng.choice(NAMES)] = [rng.randrange(0, len(cuts) + 2), rng.choice(EXC_POOL)]
         allowed = None if rng.random() < 0.7 else sorted(rng.sample(NAMES, rng.randrange(1, 8)))
+        empties = sorted(rng.sample(range(len(cuts) + 2), rng.randrange(1, 3))) if rng.random() < 0.25 else []
         emit(dict(s, cuts=cuts, source=rng.choice(['file', 'iter']), expected=rng.choice(expected_pool), allowed=allowed,
-                  plan=plan), 'multi-fault')
+                  plan=plan, empties=empties), 'multi-fault')
     # ---- (b) line-level failpoints inside the inspectors' own code
     kmax = ctx.pick(120, 400)
     for s in streams():
